@@ -194,7 +194,7 @@ pub fn check_curve_line(c: &Curve<Coord2>, l: &L, stats: &mut Stats, desc: &str)
         let tol = if snapped { 0.001 } else { 1e-6 };
         let on_line = l.0 + (l.1 - l.0) * *s;
         let d_line = sdist(l, *p).abs();
-        if d_line > tol || !near(on_line, *p, tol * 1.5 + 1e-9) {
+        if gt(d_line, tol) || !near(on_line, *p, tol * 1.5 + 1e-9) {
             let key = if snapped { "snapped_hit_off_line" } else { "unsnapped_hit_off_line" };
             stats.fail("C04", key, &format!("{} t={} s={} pos={:?} line_point={:?} distance_from_line={:e}", desc, t, s, p, on_line, d_line));
         }
